@@ -1,4 +1,4 @@
 From Coq Require Import Extraction ExtrOcamlBasic.
 From Verif Require Import Session.Negotiate.
 Extraction Language OCaml.
-Extraction "model.ml" validate_open negotiate build_open.
+Extraction "model.ml" validate_open negotiate build_open dominant.
